@@ -30,6 +30,7 @@ type Prog struct {
 	SpecFns   map[string]*SpecFn   // by name (global namespace)
 	Lemmas    []*LemmaSpec
 	Ghosts    map[string]string      // ghost component name -> SMT sort text
+	GhostPkg  map[string]string      // ghost component name -> declaring package path
 	Externs   map[string][]*Contract // full callee name -> trusted contracts for functions outside the repository
 	constGlob map[*ssa.Global]bool
 }
@@ -113,7 +114,7 @@ func loadProgram(repo string, pkgPatterns []string) (*Prog, error) {
 	prog.Build()
 	P := &Prog{Repo: repo, Fset: fset, SSA: prog, Pkgs: map[string]*ssa.Package{}, TPkgs: map[string]*packages.Package{},
 		Contracts: map[string]*Contract{}, SpecFns: map[string]*SpecFn{}, constGlob: map[*ssa.Global]bool{},
-		Ghosts: map[string]string{}, Externs: map[string][]*Contract{}}
+		Ghosts: map[string]string{}, GhostPkg: map[string]string{}, Externs: map[string][]*Contract{}}
 	for _, p := range prog.AllPackages() {
 		P.Pkgs[p.Pkg.Path()] = p
 	}
@@ -154,6 +155,7 @@ func (P *Prog) loadContracts() error {
 			fs := strings.SplitN(strings.TrimSpace(g), " ", 2)
 			if len(fs) == 2 {
 				P.Ghosts[fs[0]] = strings.TrimSpace(fs[1])
+				P.GhostPkg[fs[0]] = cf.Pkg
 			}
 		}
 		for _, c := range cf.Contracts {
